@@ -13,8 +13,8 @@ const ALPHA_UTF8: &[&str] = &["é", "€", ".", "/", "\\"];
 
 pub fn jobs(tier: crate::worker::Tier) -> Vec<(String, u64)> {
     vec![
-        (format!("canon:ascii:{}", tier.pick(9, 11)), 16),
-        (format!("canon:utf8:{}", tier.pick(7, 9)), 16),
+        (format!("canon:ascii:{}", tier.pick(9, 12)), 16),
+        (format!("canon:utf8:{}", tier.pick(7, 10)), 16),
         ("canon:deep".to_string(), 4),
     ]
 }
